@@ -529,7 +529,7 @@ def run_xp(ctx, xh, xm, found, texts, report, replay_group=None):
                 found.setdefault("F33", []).append(("xp", line, detail))
                 continue
             report("xp-" + oracle, {"request": line, "oracle": oracle, "detail": detail,
-                                    "xp_group": {k: g[k] for k in ("kind", "pat", "opts", "subj", "deco", "plain", "ngroups")},
+                                    "xp_group": {k: g[k] for k in ("kind", "pat", "opts", "subj", "deco", "plain", "ngroups", "fc_lost")},
                                     "what": "non-schema API: metamorphic oracle %s violated (see gen/C11_xp.py)" % oracle})
         if f is None:
             continue
@@ -548,7 +548,7 @@ def run_xp(ctx, xh, xm, found, texts, report, replay_group=None):
                 want = "0" if pos is None else "1:%d_%d" % (X.units(s[:pos]), X.units(s[:pos + len(g["lit"])]))
                 if f[k] != want:
                     report("xp-literal", {"request": tg[0][1], "subject_index": k, "impl": f[k], "spec": want,
-                                          "xp_group": {k2: g[k2] for k2 in ("kind", "pat", "opts", "subj", "deco", "plain", "ngroups", "lit")},
+                                          "xp_group": {k2: g[k2] for k2 in ("kind", "pat", "opts", "subj", "deco", "plain", "ngroups", "lit", "fc_lost")},
                                           "what": "literal pattern: window found differs from the leftmost occurrence"})
                     break
     if spec_lines:
@@ -562,7 +562,7 @@ def run_xp(ctx, xh, xm, found, texts, report, replay_group=None):
                 if x[:1] != y:
                     report("xp-O8-spec", {"request": line, "subject_index": k, "impl": x, "spec": y,
                                           "ast": X.any_window_ast(X.ast_xp(g["expr"], "s" in g["opts"])),
-                                          "xp_group": {k2: g[k2] for k2 in ("kind", "pat", "opts", "subj", "deco", "plain", "ngroups")},
+                                          "xp_group": {k2: g[k2] for k2 in ("kind", "pat", "opts", "subj", "deco", "plain", "ngroups", "fc_lost")},
                                           "what": "non-schema matches(): 'some window matches' differs from the Spec (dmatch_re on ANY* r ANY*)"})
                     break
     n_model = 0
@@ -591,7 +591,7 @@ def run_xp(ctx, xh, xm, found, texts, report, replay_group=None):
                 got = "0" if x[:1] == "0" else x[2:].split(",")[0]
                 if got != want:
                     report("xp-O9-model", {"request": line, "subject_index": k, "impl": x, "model": want,
-                                           "xp_group": {k2: g[k2] for k2 in ("kind", "pat", "opts", "subj", "deco", "plain", "ngroups")},
+                                           "xp_group": {k2: g[k2] for k2 in ("kind", "pat", "opts", "subj", "deco", "plain", "ngroups", "fc_lost")},
                                            "what": "non-schema matches(): window found differs from the search model (Model11.xsearch_tok)"})
                     break
     ctx.coverage["xp"] = {"groups": len(groups), "dropped_empty_class_F32": n_empty, "requests": len(lines), "oracle_hits": oracle_hits,
@@ -850,9 +850,10 @@ def run(ctx):
                "a later match keeps the previous match's positions: (b)|c on \"bcb\" with replacement [$0|$1] gives [c|b]",
         "F32": "option i and a character class that ends up empty (e.g. [a-[a]]): RangeToken::getCaseInsensitiveToken loops "
                "to fElemCount - 1 with unsigned fElemCount == 0 and writes past its buffer; the constructor crashes",
-        "F33": "the first-character pre-filter (switched off by option H) is not a necessary condition: a union containing '.' "
-               "loses FC_ANY in Token::analyzeFirstCharacter, a literal starting with a supplementary character contributes its high "
-               "surrogate, and Context::nextCh leaves matchStart on the low surrogate: (a|.)b misses \"zb\", [b-U+10000]+ misses U+10000",
+        "F33": "the first-character pre-filter (switched off by option H) is not a necessary condition in exactly two classes: "
+               "(a) Token::analyzeFirstCharacter discards the FC_ANY of a '.' (union that saw another branch first, or closure): "
+               "(a|.)b misses \"zb\"; (b) the match has to start on a supplementary character (high surrogate in the set, "
+               "matchStart left on the low surrogate): [b-U+10000]+ misses U+10000",
         "F34": "non-schema matches(s, &Match) on an expression that is a single literal (Boyer-Moore-only path): the end position "
                "is start + length of the pattern TEXT, not of the literal: b{1} on \"b\" reports the window 0..4, \\. reports one too many",
         "F30": "malformed schema-mode expressions rejected with the wrong exception: `\\1` throws RuntimeException, an "
